@@ -6,6 +6,7 @@ the model: the harness compares the printed 7-digit strings).
 import Mathlib.Algebra.Order.Field.Rat
 import DL.Model.Print
 import DL.Lemmas.FmtG7
+import DL.Lemmas.FmtG7Str
 namespace DL
 
 def leB (asc : Bool) (a b : Line) : Bool := if asc then decide (a.bf ≤ b.bf) else decide (b.bf ≤ a.bf)
@@ -166,7 +167,10 @@ theorem C16_pure (pdg2evt : List (String × String)) (t : Tables) (m : String) (
 `fmtG7 v` (the model of `'%.7g' % v` on the exact value) is `renderSig7 n e` for `(n, e) = sig7 v`.  The digits are a correct
 rounding: seven of them, and the value differs from `n · 10^(e-6)` by at most half a unit of the seventh digit
 (`DL/Lemmas/FmtG7.lean`: the decimal exponent from digit counts, `floorLog10_spec`; round-half-even, `roundHalfEven_spec`).
-How the digits are laid out (`renderSig7`: positional or scientific, trailing zeros dropped) is compared with the printed text. -/
+How the digits are laid out (`renderSig7`: positional below `1e7` and from `1e-4`, else scientific; trailing zeros and a trailing point
+dropped) is proved too: read back as a number (`numValue`, the exact value of a numeric literal), the text denotes exactly
+`n · 10^(e-6)` (`renderSig7_value`, DL/Lemmas/FmtG7Str.lean), so the number a reader takes from the value column differs from
+the stored, scaled number by at most half a unit of its seventh significant digit (`C16_value_read_back`). -/
 
 theorem C16_sig7 (v : Rat) (hv : 0 < v) :
     10 ^ 6 ≤ (sig7 v).1 ∧ (sig7 v).1 < 10 ^ 7 ∧
@@ -180,6 +184,27 @@ theorem C16_shown (o : PrintOpts) (norm : Rat) (l : Line) (h : 0 < l.bf / norm) 
   have hz : (l.bf / norm == 0) = false := by
     rw [beq_eq_false_iff_ne]; exact ne_of_gt h
   simp [rowOut, fmtG7, fmtG7Pos, hne, hz]
+
+/-- the value column, read back as a number, is the stored scaled value up to half a unit of the seventh significant digit
+    (for every value, negative and zero included: zero is shown as a text that reads back as zero) -/
+theorem C16_value_read_back (o : PrintOpts) (norm : Rat) (l : Line) :
+    ∃ v : Rat, numValue (rowOut o norm l).shown = some v ∧
+      (l.bf / norm = 0 → v = 0) ∧
+      (l.bf / norm ≠ 0 → |l.bf / norm - v| ≤ 1 / 2 * (10 : Rat) ^ ((sig7 |l.bf / norm|).2 - 6)) := by
+  have : (rowOut o norm l).shown = fmtG7 (l.bf / norm) := by simp [rowOut]
+  rw [this]
+  exact fmtG7_value (l.bf / norm)
+
+/-- the layout alone: seven digits `n` at decimal exponent `e` are written as a text that denotes `n · 10^(e-6)` exactly -/
+theorem C16_layout_exact (n : Nat) (e : Int) (hlo : 10 ^ 6 ≤ n) (hhi : n < 10 ^ 7) :
+    numValue (renderSig7 n e) = some ((n : Rat) * (10 : Rat) ^ (e - 6)) := by
+  have := renderSig7_value n e hlo hhi false (renderSig7 n e) (by simp [sgnPre])
+  simpa using this
+
+/-- non-vacuity: the read-back of a shown text -/
+example : numValue (fmtG7 (1 / 3)) = some (3333333 / 10000000) := by decide +kernel
+example : numValue (fmtG7 (-12345678 / 1)) = some (-12345680) := by decide +kernel
+example : numValue (fmtG7 (271 / 69430000)) = some (3903212 / 1000000000000) := by decide +kernel
 
 /-- non-vacuity: 1/3 is shown with the digits 3333333 at exponent -1, 0.0271 / 0.6943 as 3.903212e-02 -/
 example : sig7 (1 / 3) = (3333333, -1) := by decide +kernel
